@@ -1,5 +1,6 @@
 import TensorModel.Proofs.Reduce
 import TensorModel.Proofs.Views
+import TensorModel.Proofs.Kernels
 /-!
   C08 — reductions fold exactly the elements along the requested axes.
   Property theorems about the model functions of `TensorModel/Ext/Reduce.lean`; helper lemmas live
@@ -722,9 +723,8 @@ theorem argmin_kernel_eq_spec (q : Int) (qs : List Int) :
 example : argFirst true [.num 3, .num 7, .num 7, .num (-1)] = 1 ∧ argFirst false [.num 3, .num (-1), .num 7, .num (-1)] = 1 ∧
     argFirst true [.num infKey, .num 0, .num infKey] = 0 ∧ argFirst true [.str "s10", .str "s9", .str "s2"] = 1 := by decide
 
-/-- the float kernels: without a NaN and without the searched infinity after the first element they are
-    the generic kernel (partial: rows whose first occurrence of the infinity is not the first element
-    are also right — the early return then hits the first index of the extreme — not proved here) -/
+/-- the float kernels' loop: without a NaN and without the searched infinity among the remaining elements
+    it is the generic loop -/
 theorem go_float_partial (isMax : Bool) : ∀ (rest : List Key) (i best : Nat) (f : Key),
     (∀ v ∈ rest, (v.isNaN || v == .num (if isMax then infKey else -infKey)) = false) →
     argKernel.go isMax true i best f rest = argKernel.go isMax false i best f rest
@@ -736,26 +736,122 @@ theorem go_float_partial (isMax : Bool) : ∀ (rest : List Key) (i best : Nat) (
     simp only [argKernel.go, hv, Bool.true_and, Bool.false_and, Bool.false_eq_true, if_false]
     rw [go_float_partial isMax vs (i + 1) i v hvs, go_float_partial isMax vs (i + 1) best f hvs]
 
-theorem argKernel_float_partial (isMax : Bool) (k : Key) (ks : List Key)
-    (h : ∀ v ∈ ks, (v.isNaN || v == .num (if isMax then infKey else -infKey)) = false) :
-    argKernel isMax true (k :: ks) = argKernel isMax false (k :: ks) := by
-  simp only [argKernel]
-  exact go_float_partial isMax ks 1 0 k h
+/-- once the running maximum is +Inf (the greatest value) the generic loop keeps its index -/
+theorem go_max_stays : ∀ (vs : List Int) (i best : Nat), (∀ x ∈ vs, x ≤ infKey) →
+    argKernel.go true false i best (.num infKey) (vs.map Key.num) = best
+  | [], _, _, _ => by simp [argKernel.go]
+  | v :: vs, i, best, h => by
+    have hv : ¬ (v > infKey) := by have := h v (by simp); omega
+    simp only [List.map_cons, argKernel.go, Bool.false_and, Bool.false_eq_true, if_false, if_true, Key.gt, hv,
+      decide_false]
+    exact go_max_stays vs (i + 1) best (fun x hx => h x (by simp [hx]))
 
-/-- the full statement "the float kernel returns the first index of the extreme of a NaN-free row"
-    fails (finding F43): a row that starts with +Inf and contains it again -/
-def argKernel_float_full : Prop :=
-  ∀ (isMax : Bool) (ks : List Key), ks.any Key.isNaN = false → argKernel isMax true ks = argFirst isMax ks
+theorem go_min_stays : ∀ (vs : List Int) (i best : Nat), (∀ x ∈ vs, -infKey ≤ x) →
+    argKernel.go false false i best (.num (-infKey)) (vs.map Key.num) = best
+  | [], _, _, _ => by simp [argKernel.go]
+  | v :: vs, i, best, h => by
+    have hv : ¬ (-infKey > v) := by have := h v (by simp); omega
+    simp only [List.map_cons, argKernel.go, Bool.false_and, Bool.false_eq_true, if_false, Key.lt, Key.gt, hv,
+      decide_false]
+    exact go_min_stays vs (i + 1) best (fun x hx => h x (by simp [hx]))
 
-theorem argKernel_float_full_fails : ¬ argKernel_float_full := by
-  intro h
-  have := h true [.num infKey, .num 0, .num infKey] (by decide)
-  revert this
-  decide
+/-- the float loop returns at the first +Inf; the generic loop makes it the running maximum there and
+    keeps it: the same index, for rows whose values do not exceed +Inf -/
+theorem go_max_float : ∀ (vs : List Int) (i best : Nat) (f : Int), (∀ x ∈ vs, x ≤ infKey) → f < infKey →
+    argKernel.go true true i best (.num f) (vs.map Key.num) = argKernel.go true false i best (.num f) (vs.map Key.num)
+  | [], _, _, _, _, _ => by simp [argKernel.go]
+  | v :: vs, i, best, f, h, hf => by
+    have hvs : ∀ x ∈ vs, x ≤ infKey := fun x hx => h x (by simp [hx])
+    have hvle : v ≤ infKey := h v (by simp)
+    by_cases hv : v = infKey
+    · subst hv
+      have hgt : infKey > f := by omega
+      simp only [List.map_cons, argKernel.go, Key.isNaN, Bool.false_or, Bool.true_and, Bool.false_and, if_true,
+        BEq.rfl, Key.gt, hgt, decide_true, Bool.false_eq_true, if_false]
+      exact (go_max_stays vs (i + 1) i hvs).symm
+    · have hne : (Key.num v == Key.num infKey) = false := by
+        simp only [beq_eq_false_iff_ne, ne_eq, Key.num.injEq]; exact hv
+      have hvlt : v < infKey := by omega
+      simp only [List.map_cons, argKernel.go, Key.isNaN, Bool.false_or, Bool.true_and, Bool.false_and, if_true, hne,
+        Bool.false_eq_true, if_false]
+      by_cases hg : v > f
+      · simp only [Key.gt, hg, decide_true, if_true]
+        exact go_max_float vs (i + 1) i v hvs hvlt
+      · simp only [Key.gt, hg, decide_false, Bool.false_eq_true, if_false]
+        exact go_max_float vs (i + 1) best f hvs hf
 
-/-- the witness row is in the region `Excl_argInfTie`, its value is index 2 instead of 0 -/
-example : Excl_argInfTie true [[.num infKey, .num 0, .num infKey]] = true ∧
-    argKernel true true [.num infKey, .num 0, .num infKey] = 2 ∧ argFirst true [.num infKey, .num 0, .num infKey] = 0 := by decide
+theorem go_min_float : ∀ (vs : List Int) (i best : Nat) (f : Int), (∀ x ∈ vs, -infKey ≤ x) → -infKey < f →
+    argKernel.go false true i best (.num f) (vs.map Key.num) = argKernel.go false false i best (.num f) (vs.map Key.num)
+  | [], _, _, _, _, _ => by simp [argKernel.go]
+  | v :: vs, i, best, f, h, hf => by
+    have hvs : ∀ x ∈ vs, -infKey ≤ x := fun x hx => h x (by simp [hx])
+    have hvle : -infKey ≤ v := h v (by simp)
+    by_cases hv : v = -infKey
+    · subst hv
+      have hgt : f > -infKey := by omega
+      simp only [List.map_cons, argKernel.go, Key.isNaN, Bool.false_or, Bool.true_and, Bool.false_and,
+        BEq.rfl, Key.lt, Key.gt, hgt, decide_true, Bool.false_eq_true, if_false, if_true]
+      exact (go_min_stays vs (i + 1) i hvs).symm
+    · have hne : (Key.num v == Key.num (-infKey)) = false := by
+        simp only [beq_eq_false_iff_ne, ne_eq, Key.num.injEq]; exact hv
+      have hvlt : -infKey < v := by omega
+      simp only [List.map_cons, argKernel.go, Key.isNaN, Bool.false_or, Bool.true_and, Bool.false_and, hne,
+        Bool.false_eq_true, if_false]
+      by_cases hg : f > v
+      · simp only [Key.lt, Key.gt, hg, decide_true, if_true]
+        exact go_min_float vs (i + 1) i v hvs hvlt
+      · simp only [Key.lt, Key.gt, hg, decide_false, Bool.false_eq_true, if_false]
+        exact go_min_float vs (i + 1) best f hvs hf
+
+/-- **Float kernels = generic kernel** on every NaN-free row whose values lie within ±Inf (`infKey` is the
+    key of the greatest float): the early return at the first searched infinity — first element
+    included — is the first index of the extreme. -/
+theorem argmax_float_eq_generic (q : Int) (qs : List Int) (hb : ∀ x ∈ q :: qs, x ≤ infKey) :
+    argKernel true true ((q :: qs).map Key.num) = argKernel true false ((q :: qs).map Key.num) := by
+  have hqs : ∀ x ∈ qs, x ≤ infKey := fun x hx => hb x (by simp [hx])
+  have hq : q ≤ infKey := hb q (by simp)
+  by_cases h : q = infKey
+  · subst h
+    simp only [List.map_cons, argKernel, Key.isNaN, Bool.false_or, Bool.true_and, Bool.false_and, BEq.rfl, if_true,
+      Bool.false_eq_true, if_false]
+    exact (go_max_stays qs 1 0 hqs).symm
+  · have hne : (Key.num q == Key.num infKey) = false := by
+      simp only [beq_eq_false_iff_ne, ne_eq, Key.num.injEq]; exact h
+    simp only [List.map_cons, argKernel, Key.isNaN, Bool.false_or, Bool.true_and, Bool.false_and, if_true, hne,
+      Bool.false_eq_true, if_false]
+    exact go_max_float qs 1 0 q hqs (by omega)
+
+theorem argmin_float_eq_generic (q : Int) (qs : List Int) (hb : ∀ x ∈ q :: qs, -infKey ≤ x) :
+    argKernel false true ((q :: qs).map Key.num) = argKernel false false ((q :: qs).map Key.num) := by
+  have hqs : ∀ x ∈ qs, -infKey ≤ x := fun x hx => hb x (by simp [hx])
+  have hq : -infKey ≤ q := hb q (by simp)
+  by_cases h : q = -infKey
+  · subst h
+    simp only [List.map_cons, argKernel, Key.isNaN, Bool.false_or, Bool.true_and, Bool.false_and, BEq.rfl, if_true,
+      Bool.false_eq_true, if_false]
+    exact (go_min_stays qs 1 0 hqs).symm
+  · have hne : (Key.num q == Key.num (-infKey)) = false := by
+      simp only [beq_eq_false_iff_ne, ne_eq, Key.num.injEq]; exact h
+    simp only [List.map_cons, argKernel, Key.isNaN, Bool.false_or, Bool.true_and, Bool.false_and, hne,
+      Bool.false_eq_true, if_false]
+    exact go_min_float qs 1 0 q hqs (by omega)
+
+/-- **M = S for float rows** (finding F43 repaired): on a NaN-free row with values within ±Inf the float
+    kernel returns S's `argFirst`, the first index of the extreme — also when the row starts with the
+    searched infinity and contains it again. -/
+theorem argKernel_float_full (isMax : Bool) (q : Int) (qs : List Int)
+    (hb : ∀ x ∈ q :: qs, -infKey ≤ x ∧ x ≤ infKey) :
+    argKernel isMax true ((q :: qs).map Key.num) = argFirst isMax ((q :: qs).map Key.num) := by
+  cases isMax with
+  | true => rw [argmax_float_eq_generic q qs (fun x hx => (hb x hx).2), argmax_kernel_eq_spec]
+  | false => rw [argmin_float_eq_generic q qs (fun x hx => (hb x hx).1), argmin_kernel_eq_spec]
+
+/-- the former witness row of F43: index 0, as S says -/
+example : argKernel true true [.num infKey, .num 0, .num infKey] = 0 ∧ argFirst true [.num infKey, .num 0, .num infKey] = 0 ∧
+    argKernel false true [.num (-infKey), .num 0, .num (-infKey)] = 0 := by decide
+
+/-- a NaN decides the result wherever it stands: its index is returned (S is silent on rows with NaN) -/
+example : argKernel true true [.nan, .num 5] = 0 ∧ argKernel true true [.num 5, .nan, .num 7] = 1 := by decide
 
 /-- logical listing read through a list of storage offsets -/
 def logicalOf {α : Type} (raw : List α) (offs : List Int) : List α := offs.filterMap (getI? raw)
@@ -777,10 +873,47 @@ theorem logicalOf_range {α : Type} (raw : List α) : logicalOf raw (rangeI raw.
       rw [← ih n]
       congr 2
 
-/-- flat Argmax/Argmin read the storage window left to right. Partial: that is the row-major listing
-    of the logical elements when the row-major addresses of the coordinates are `0,1,…,len-1`
-    (`¬Excl_rawNotLogical`: contiguous row-major tensors, materialised views) -/
-theorem flatArg_partial (t : Dense) (raw : List Key) (hlen : raw.length = t.win.len)
+/-- flat Argmax/Argmin on a tensor that needs an iterator or is column-major (views with gaps, lazily
+    transposed tensors, column-major tensors, clones of non-contiguous views): the cells are read at the
+    row-major addresses of the coordinates, in coordinate order — whatever the strides -/
+theorem flatArg_iter_offsets (t : Dense) (hv : flatArgViaIter t = true)
+    (hl : t.strides.length = t.shape.length) (hpos : ∀ d ∈ t.shape, 0 < d) :
+    flatArgOffsets t = (allCoords t.shape).map (fun c => dot c t.strides) := by
+  unfold flatArgOffsets Dense.offsets
+  simp only [hv, if_true]
+  exact offsets_rowmajor t.ap hl hpos
+
+/-- … and the iterator kernel's single run over all of them is the flat kernel over that listing -/
+theorem argChunks_single {α : Type} (f : List Key → α) (d : α) (ks : List Key) (hne : ks ≠ []) :
+    ((argChunks ks.length ks).map f).headD d = f ks := by
+  have hpos : 0 < ks.length := List.length_pos_iff.mpr hne
+  unfold argChunks
+  rw [Nat.div_self hpos]
+  simp [chunks]
+
+/-- **Flat Argmax/Argmin read the logical elements in row-major order** (finding F41 repaired): for a
+    tensor with one stride per axis and positive dimensions, the keys the kernel sees are the elements
+    listed by coordinate. On the raw path (contiguous, row-major, no pending transpose) this is the
+    metadata invariant `¬Excl_rawNotLogical` (the row-major addresses of the coordinates are `0,1,…,len-1`);
+    on every other layout it holds for arbitrary strides. -/
+theorem flatArg_full (t : Dense) (raw : List Key)
+    (hl : t.strides.length = t.shape.length) (hpos : ∀ d ∈ t.shape, 0 < d)
+    (hsmall : (allCoords t.shape).length ≤ 4096)
+    (hx : flatArgViaIter t = false → Excl_rawNotLogical t = false) :
+    logicalOf raw (flatArgOffsets t) = logicalOf raw ((allCoords t.shape).map (fun c => dot c t.strides)) := by
+  cases hv : flatArgViaIter t with
+  | true => rw [flatArg_iter_offsets t hv hl hpos]
+  | false =>
+    have hx' := hx hv
+    unfold Excl_rawNotLogical at hx'
+    have hs : ¬ ((allCoords t.shape).length > 4096) := by omega
+    simp only [hs, if_false, bne_eq_false_iff_eq] at hx'
+    unfold flatArgOffsets
+    simp only [hv, Bool.false_eq_true, if_false]
+    rw [hx']
+
+/-- on the raw path the window *is* the logical listing -/
+theorem flatArg_raw (t : Dense) (raw : List Key) (hlen : raw.length = t.win.len)
     (hsmall : (allCoords t.shape).length ≤ 4096) (hx : Excl_rawNotLogical t = false) :
     logicalOf raw ((allCoords t.shape).map (fun c => dot c t.strides)) = raw := by
   unfold Excl_rawNotLogical at hx
@@ -788,11 +921,14 @@ theorem flatArg_partial (t : Dense) (raw : List Key) (hlen : raw.length = t.win.
   simp only [hs, if_false, bne_eq_false_iff_eq] at hx
   rw [hx, ← hlen, logicalOf_range]
 
-/-- the full statement fails (finding F41): a lazily transposed (2,2) tensor with storage 1 9 2 4 has the
-    logical listing 1 2 9 4; the flat arg-max is rank 2, the kernel returns the storage index 1 -/
-theorem flatArg_full_fails :
-    ∃ (shape : Shape) (strides : List Int) (raw : List Key),
-      argKernel true false raw ≠ argFirst true (logicalOf raw ((allCoords shape).map (fun c => dot c strides))) :=
-  ⟨[2, 2], [1, 2], [.num 1, .num 9, .num 2, .num 4], by decide⟩
+/-- the former witness of F41: a lazily transposed (2,2) tensor with storage 1 9 2 4 has the logical
+    listing 1 2 9 4; the flat arg-max reads it through the iterator and returns rank 2 (the raw kernel
+    returned the storage index 1) -/
+def wT41 : Dense := { ap := { shape := [2, 2], strides := [1, 2], fin := true, o := { transposed := true } },
+                      old := some { shape := [2, 2], strides := [2, 1], fin := true }, win := ⟨0, 0, 4, 4⟩, dt := "i" }
+example : flatArgViaIter wT41 = true ∧ flatArgOffsets wT41 = [0, 2, 1, 3] ∧
+    argKernel true false (logicalOf [.num 1, .num 9, .num 2, .num 4] (flatArgOffsets wT41)) = 2 ∧
+    argFirst true (logicalOf [.num 1, .num 9, .num 2, .num 4] ((allCoords wT41.shape).map (fun c => dot c wT41.strides))) = 2 ∧
+    argKernel true false [.num 1, .num 9, .num 2, .num 4] = 1 := by decide
 
 end TM.C08
